@@ -85,7 +85,7 @@ BadModes == {"none", "overlap", "lpclash", "dupalias", "nobfd"}
 
 GridParams ==
   {[kind |-> "grid", n |-> c, pin |-> pin, adv |-> adv, bad |-> bad] :
-      c \in CountVecs, pin \in PinModes \ {"peers"}, adv \in AdvModes, bad \in BadModes}
+      c \in CountVecs, pin \in PinModes \ {"peers", "advpairs"}, adv \in AdvModes, bad \in BadModes}
 
 (* peers slice: what the mode validators compare PAIRWISE: 2 or 3 peers over 2 VRFs x 2 local   *)
 (* ASNs, router ids (none / all equal / last differs / first differs), a duplicated peer address, *)
@@ -120,9 +120,46 @@ PeerSliceObjs(s) ==
                                                peers |-> <<>>, nsel |-> <<>>]],
    communities |-> <<>>, nodes |-> <<>>, namespaces |-> <<>>]
 
-Params == GridParams \cup (IF "peers" \in PinModes THEN {p \in PeerParams : \A i \in 1 .. 3 : i <= p.n["peers"] \/ p.pv[i] = <<"", 64512>>} ELSE {})
+(* advpairs slice: two (three) BGP advertisements that may CLASH on a pool (validateBGPAdvPerPool   *)
+(* compares a new advertisement with the ones already attached): local preference equal / different, *)
+(* aggregation length equal / different, peer lists empty (= all peers) / restricted / disjoint /    *)
+(* overlapping, node selectors empty / restricted, pools reached by "none = all", by name, by label  *)
+(* selector - in every asymmetric combination                                                      *)
+PeerLists == {<<>>, <<"peer-a">>, <<"peer-b">>, <<"peer-b", "peer-a">>}
+NodeSels == {<<>>, <<"a">>, <<"b">>}
+Targets == {"all", "named", "selected"}
+AdvSpec(lp, agg, pl, ns, tg) == [lp |-> lp, agg |-> agg, peers |-> pl, nsel |-> ns, tgt |-> tg]
+AdvPairParams ==
+  {[kind |-> "advpairs", n |-> [k \in Kinds |-> CASE k = "bgpadvs" -> 2 [] k \in {"pools", "peers", "nodes"} -> 2 [] OTHER -> 0],
+    advs |-> <<AdvSpec(100, 32, p1, n1, t1), AdvSpec(lp2, a2, p2, n2, t2)>>, pin |-> "advpairs", adv |-> "all", bad |-> "none"] :
+      p1 \in PeerLists, n1 \in NodeSels, t1 \in Targets,
+      lp2 \in {100, 200}, a2 \in {32, 31}, p2 \in PeerLists, n2 \in NodeSels, t2 \in Targets}
+  \cup
+  {[kind |-> "advpairs", n |-> [k \in Kinds |-> CASE k = "bgpadvs" -> 3 [] k \in {"pools", "peers", "nodes"} -> 2 [] OTHER -> 0],
+    advs |-> <<AdvSpec(100, 32, p1, n1, "all"), AdvSpec(lp2, 32, p2, n2, "all"), AdvSpec(300, 32, p3, n3, "all")>>,
+    pin |-> "advpairs", adv |-> "all", bad |-> "none"] :
+      p1 \in PeerLists, n1 \in NodeSels, lp2 \in {100, 200}, p2 \in PeerLists, n2 \in NodeSels, p3 \in PeerLists, n3 \in NodeSels}
+  (* (three: the third may clash with exactly one of the other two) *)
 
-Objs(s) == IF s.kind = "grid" THEN GridObjs(s.n, s.pin, s.adv, s.bad) ELSE PeerSliceObjs(s)
+AdvPairObjs(s) ==
+  [pools |-> <<[name |-> "pool-a", lab |-> "x", cidrs |-> <<1>>, ns |-> <<>>, sel |-> FALSE, nssel |-> FALSE, prio |-> 0],
+               [name |-> "pool-b", lab |-> "", cidrs |-> <<2>>, ns |-> <<>>, sel |-> FALSE, nssel |-> FALSE, prio |-> 0]>>,
+   peers |-> [i \in 1 .. 2 |-> Peer(Nm("peer-", i), i, "", "", 64512, "", 0, 0, "")],
+   bfds |-> <<>>, l2advs |-> <<>>,
+   bgpadvs |-> [i \in 1 .. Len(s.advs) |->
+                  [name |-> Nm("bgp-", i),
+                   pools |-> IF s.advs[i].tgt = "named" THEN <<"pool-a">> ELSE <<>>,
+                   psel |-> IF s.advs[i].tgt = "selected" THEN <<"x">> ELSE <<>>,
+                   agg4 |-> s.advs[i].agg, lp |-> s.advs[i].lp, comms |-> <<>>,
+                   peers |-> s.advs[i].peers, nsel |-> s.advs[i].nsel]],
+   communities |-> <<>>,
+   nodes |-> [i \in 1 .. 2 |-> NodeObj(i)],
+   namespaces |-> <<>>]
+
+Params == (IF "advpairs" \in PinModes THEN AdvPairParams ELSE {}) \cup GridParams \cup (IF "peers" \in PinModes THEN {p \in PeerParams : \A i \in 1 .. 3 : i <= p.n["peers"] \/ p.pv[i] = <<"", 64512>>} ELSE {})
+
+Objs(s) == IF s.kind = "grid" THEN GridObjs(s.n, s.pin, s.adv, s.bad)
+           ELSE IF s.kind = "peers" THEN PeerSliceObjs(s) ELSE AdvPairObjs(s)
 
 (* permutations of a kind with n objects, as sequences of listing positions *)
 PermSeqs(n) == PermsOf(n)
